@@ -489,7 +489,7 @@ class GetResponsePayload(base.ResponsePayload):
         else:
             raise ValueError("Payload is missing the object type field.")
 
-        if self.unique_identifier:
+        if self._unique_identifier:
             self._unique_identifier.write(
                 local_stream,
                 kmip_version=kmip_version
